@@ -4,7 +4,6 @@ import (
 	"bytes"
 	"errors"
 	"fmt"
-	"io"
 
 	"github.com/gorilla/websocket"
 	"pgregory.net/rapid"
@@ -20,6 +19,8 @@ type WireCase struct {
 	Steps  []WStep `json:"steps"`
 	Chunks []int   `json:"chunks,omitempty"`
 	Reads  []RStep `json:"reads,omitempty"`
+	// EOFWith: the reader's transport returns its last bytes together with io.EOF.
+	EOFWith bool `json:"eof_with,omitempty"`
 }
 
 func genWireCase(t *rapid.T) WireCase {
@@ -41,6 +42,7 @@ func genWireCase(t *rapid.T) WireCase {
 	}
 	c.Chunks = genChunks(t, "chunks", total)
 	c.Reads = genReadProgram(t, c.R.ReadBuf, false, true)
+	c.EOFWith = rapid.Bool().Draw(t, "eof_with_last_bytes")
 	return c
 }
 
@@ -202,6 +204,7 @@ func checkC01(c WireCase, o *Obs) error {
 	}
 	wire := append([]byte(nil), trW.Wrote...)
 	trR.SetInput(wire, c.Chunks)
+	trR.EOFWithData = c.EOFWith
 	var cl ctlLog
 	cl.install(cr)
 	lens := make([]int, len(data))
@@ -299,8 +302,6 @@ func checkC01(c WireCase, o *Obs) error {
 		if !errors.As(rt.Final, &ce) || ce.Code != code || ce.Text != text {
 			return fmt.Errorf("close message (%d,%q) was sent last but the peer's reader ended with %v", code, text, rt.Final)
 		}
-	} else if rt.Final == io.EOF {
-		return errors.New("reader reported bare io.EOF at end of stream")
 	}
 
 	// --- coverage classes
